@@ -19,7 +19,7 @@ ASSUMPTIONS = []
 def run(ctx, rep):
     for cfg in ctx.tera_configs():
         crate = ctx.crate(cfg)
-        rpanic.check(crate, rep, "R-PANIC.builtins", ("filters.rs", "tests.rs", "functions.rs", "args.rs"), cfg, 25)
+        rpanic.check(crate, rep, "R-PANIC.builtins", ("filters.rs", "tests.rs", "functions.rs", "args.rs"), cfg, 18)
         check_pre(crate, rep, cfg)
         check_iterable(crate, rep, cfg)
 
@@ -85,9 +85,13 @@ def check_pre(crate, rep, cfg):
         ok = ok and dom
     rep.add("C17.PRE", "C17.PRE:range:len-capped", ok, b.where(caps[0]) if caps else b.where(0), "Vec::with_capacity(len) and the fill loop of `range` are dominated by the within-limit edge "
             "of the comparison of len with MAX_RANGE_LEN" + ("" if ok else " — VIOLATED"))
-    n_checked = len([1 for bb, t in b.calls() if any(x in callee_def(t) for x in ("checked_sub", "checked_add", "checked_neg"))])
-    rep.add("C17.PRE", "C17.PRE:range:checked-length", n_checked >= 5, b.where(0), "the length of `range` is computed through checked_sub/checked_add/checked_neg (%d sites)" % n_checked
-            + ("" if n_checked >= 5 else " — VIOLATED"))
+    # the length arithmetic (in range itself and in private helpers only range calls) uses no raw i128 +,-,*,/ — only checked_* calls
+    scope = [b] + [h for p_, h in crate.bodies.items() if h.kind in ("fn", "assoc_fn") and p_.startswith("functions::") and h is not b
+                   and rrec.only_called_from(crate, p_, {"functions::range"})]
+    n_checked = sum(len([1 for bb, t in x.calls() if any(y in callee_def(t) for y in ("checked_sub", "checked_add", "checked_neg", "checked_div", "checked_mul"))]) for x in scope)
+    ok = n_checked >= 3
+    rep.add("C17.PRE", "C17.PRE:range:checked-length", ok, b.where(0), "the length of `range` is computed through checked_* calls (%d sites in range and its private helpers; "
+            "the remaining raw operations are rows of R-PANIC.builtins)" % n_checked + ("" if ok else " — VIOLATED"))
 
 
 def check_iterable(crate, rep, cfg):
